@@ -785,6 +785,7 @@ type c12CorpusEntry struct {
 	Name  string  `json:"name"`
 	Class string  `json:"class"` // class the witness is expected to produce
 	Note  string  `json:"note,omitempty"`
+	Fixed string  `json:"fixed,omitempty"` // commit that repaired the defect: the witness is a regression input and must not fail
 	Case  c12Case `json:"case"`
 }
 
@@ -901,8 +902,14 @@ func runC12(r *Run, rng *Rng, tier string) error {
 			r.AddEval("corpus:"+e.Name, true)
 			r.Count("corpus", e.Name+" -> "+orStr(res.Class, res.Outcome))
 			if res.Class != "" {
+				what := "corpus witness "
+				if e.Fixed != "" {
+					what = "REGRESSION: witness of a defect repaired by " + e.Fixed + " fails again: "
+				}
 				r.Violation(OracleViolation{Law: "no_panic_exit_hang", Class: res.Class,
-					Detail: "corpus witness " + e.Name + ": " + c12Detail(e.Case, res), Replay: e.Case})
+					Detail: what + e.Name + ": " + c12Detail(e.Case, res), Replay: e.Case})
+			} else if e.Fixed != "" {
+				r.Count("corpus_regression_inputs", "still repaired")
 			} else if e.Class != "" {
 				r.Meta.Notes = append(r.Meta.Notes, fmt.Sprintf("corpus witness %s no longer fails (expected class %s): repaired?", e.Name, e.Class))
 			}
